@@ -103,13 +103,29 @@ class Feeder:
     def __init__(self, stream):
         self.stream, self.pos = list(stream), 0
 
-    def __call__(self, low=0.0, high=1.0, size=None):
-        assert size is None and low == 0 and high == 1
+    def _next(self):
         if self.pos >= len(self.stream):
             raise StreamExhausted()
         v = self.stream[self.pos]
         self.pos += 1
         return v
+
+    def __call__(self, low=0.0, high=1.0, size=None):
+        """same interface as numpy.random.uniform: scalar or any `size`; numbers are taken from the stream in order
+        (a batched draw consumes the same numbers as that many scalar draws), mapped to [low, high) like numpy does"""
+        if size is None:
+            shape, n = None, 1
+        else:
+            shape = (int(size),) if numpy.ndim(size) == 0 else tuple(int(k) for k in size)
+            n = int(numpy.prod(shape)) if shape else 1
+        if self.pos + n > len(self.stream):
+            self.pos = len(self.stream)
+            raise StreamExhausted()
+        vals = numpy.array([self._next() for _ in range(n)], dtype=float)
+        vals = low + (high - low) * vals
+        if shape is None:
+            return float(vals[0])
+        return vals.reshape(shape)
 
 
 @contextlib.contextmanager
@@ -180,7 +196,7 @@ def capture(mod):
 
 # ----------------------------------------------------------------------------- generators
 def gen_rates(rng, n, force_zero=None):
-    style = rng.choice(["decades", "decades", "uniform", "decimal", "equal", "tiny-tail", "integers"])
+    style = rng.choice(["decades", "decades", "uniform", "decimal", "equal", "tiny-tail", "integers", "subeps", "subeps"])
     out = []
     for i in range(n):
         if style == "decades":
@@ -193,6 +209,11 @@ def gen_rates(rng, n, force_zero=None):
             v = 0.1
         elif style == "integers":
             v = float(rng.choice([1, 1, 2, 3, 5, 10, 100, 1000]))
+        elif style == "subeps":
+            # positive rates at or far below 1e-8 (still with a non-empty float interval when >= ~1e-16 of the total)
+            # next to ordinary rates
+            v = rng.choice([10.0 ** rng.uniform(-1, 1), 10.0 ** rng.uniform(-13, -8), 10.0 ** rng.uniform(-13, -8), 1e-8, 1e-9,
+                            10.0 ** rng.uniform(-300, -13)])
         else:
             v = 10.0 ** rng.uniform(-1, 1) if i < max(1, n // 2) else 10.0 ** rng.uniform(-17, -13)
         out.append(v)
@@ -251,6 +272,10 @@ def oracle_call(rates, masked, call, expect_n, binary_loop=False):
     n, w, rn, out = call
     if isinstance(out, str):
         return f"_simulate_catalog raised {out}"
+    if not all(math.isfinite(float(x)) for x in w):
+        return "sampling weights are not finite numbers"
+    if not all(math.isfinite(float(v)) for v in numpy.ravel(out)):
+        return "simulated array holds non-finite entries"
     W = [Fraction(float(x)) for x in w]
     if len(W) != len(rates) or len(out) != len(rates):
         return "weights / result do not have the shape of the forecast"
@@ -460,59 +485,79 @@ def parse_rej(line):
     return t[0], None, None
 
 
+def _flush_item(run, out, kind, case, i, data):
+    if kind == "run":
+        n, w, rn, res = data
+        W, P, A = parse_run(out[i])
+        if [Fraction(float(x)) for x in w] != W:
+            run.count("weights-not-bitexact")
+            run.extra["weights_not_bitexact"] = run.extra.get("weights_not_bitexact", 0) + 1
+        else:
+            run.count("weights-bitexact")
+        impl = res if isinstance(res, str) else [int(v) for v in res]
+        model = "IndexError" if A == "index-error" else A
+        if impl != model:
+            run.mismatch(case, dict(array=impl), dict(array=model, placements=P))
+    elif kind == "chain":
+        rec, nstream, consumed, exc = data
+        t = out[i].split(" ")
+        st, rest = t[0], int(t[2])
+        arrs = [] if t[1] == "-" else [[] if a == "-" else [int(x) for x in a.split(",")] for a in t[1].split(";")]
+        impl_arrs = [r[3] if isinstance(r[3], str) else [int(v) for v in r[3]] for r in rec]
+        impl_st = "ok" if exc is None else ("exhausted" if exc == "exhausted" else exc)
+        impl = dict(status=impl_st, arrays=impl_arrs, consumed=consumed if exc is None else None)
+        model = dict(status=st, arrays=arrs, consumed=(nstream - rest) if st == "ok" else None)
+        if impl != model:
+            run.mismatch(case, impl, model)
+    elif kind == "chain-seeded":
+        rec = data
+        t = out[i].split(" ")
+        if t[0] != "ok":
+            run.count("default-path-stream-too-short")
+        else:
+            arrs = [] if t[1] == "-" else [[] if a == "-" else [int(x) for x in a.split(",")] for a in t[1].split(";")]
+            impl_arrs = [r[3] if isinstance(r[3], str) else [int(v) for v in r[3]] for r in rec]
+            if impl_arrs != arrs:
+                run.mismatch(case, dict(simulated_catalogs=impl_arrs), dict(simulated_catalogs_from_seed_stream=arrs))
+    elif kind == "test":
+        rec, exc = data
+        impl = "exception" if exc is not None else [[int(v) for v in r[3]] for r in rec]
+        model = out[i] if out[i] == "exception" else (
+            [] if out[i] == "-" else [[] if a == "-" else [int(x) for x in a.split(",")] for a in out[i].split(";")])
+        if impl != model:
+            run.mismatch(case, dict(simulated_catalogs=impl), dict(simulated_catalogs=model))
+    elif kind == "d10":
+        st, arr, rest = parse_rej(out[i])
+        if st != "exhausted":
+            run.mismatch(case, "can not terminate", dict(status=st, array=arr))
+    elif kind == "weights":
+        W, _, _ = parse_run(out[i])
+        if [Fraction(float(x)) for x in data[1]] != W:
+            run.count("weights-not-bitexact")
+            run.extra["weights_not_bitexact"] = run.extra.get("weights_not_bitexact", 0) + 1
+        else:
+            run.count("weights-bitexact")
+    elif kind == "seedflag":
+        if out[i] != "true":
+            run.mismatch(case, "seed applied", out[i])
+    elif kind == "quantile":
+        q, nsim = data
+        k, m = out[i].split(":")
+        if int(m) != nsim or q != int(k) / int(m):
+            run.mismatch(case, dict(quantile=q), dict(quantile=out[i]))
+
+
 def flush(run, drv, pending):
     out = drv.run()
     drv.lines.clear()
     for kind, case, i, data in pending:
-        if kind == "run":
-            n, w, rn, res = data
-            W, P, A = parse_run(out[i])
-            if [Fraction(float(x)) for x in w] != W:
-                run.count("weights-not-bitexact")
-                run.extra["weights_not_bitexact"] = run.extra.get("weights_not_bitexact", 0) + 1
-            else:
-                run.count("weights-bitexact")
-            impl = res if isinstance(res, str) else [int(v) for v in res]
-            model = "IndexError" if A == "index-error" else A
-            if impl != model:
-                run.mismatch(case, dict(array=impl), dict(array=model, placements=P))
-        elif kind == "chain":
-            rec, nstream, consumed, exc = data
-            t = out[i].split(" ")
-            st, rest = t[0], int(t[2])
-            arrs = [] if t[1] == "-" else [[] if a == "-" else [int(x) for x in a.split(",")] for a in t[1].split(";")]
-            impl_arrs = [r[3] if isinstance(r[3], str) else [int(v) for v in r[3]] for r in rec]
-            impl_st = "ok" if exc is None else ("exhausted" if exc == "exhausted" else exc)
-            impl = dict(status=impl_st, arrays=impl_arrs, consumed=consumed if exc is None else None)
-            model = dict(status=st, arrays=arrs, consumed=(nstream - rest) if st == "ok" else None)
-            if impl != model:
-                run.mismatch(case, impl, model)
-        elif kind == "test":
-            rec, exc = data
-            impl = "exception" if exc is not None else [[int(v) for v in r[3]] for r in rec]
-            model = out[i] if out[i] == "exception" else (
-                [] if out[i] == "-" else [[] if a == "-" else [int(x) for x in a.split(",")] for a in out[i].split(";")])
-            if impl != model:
-                run.mismatch(case, dict(simulated_catalogs=impl), dict(simulated_catalogs=model))
-        elif kind == "d10":
-            st, arr, rest = parse_rej(out[i])
-            if st != "exhausted":
-                run.mismatch(case, "can not terminate", dict(status=st, array=arr))
-        elif kind == "weights":
-            W, _, _ = parse_run(out[i])
-            if [Fraction(float(x)) for x in data[1]] != W:
-                run.count("weights-not-bitexact")
-                run.extra["weights_not_bitexact"] = run.extra.get("weights_not_bitexact", 0) + 1
-            else:
-                run.count("weights-bitexact")
-        elif kind == "seedflag":
-            if out[i] != "true":
-                run.mismatch(case, "seed applied", out[i])
-        elif kind == "quantile":
-            q, nsim = data
-            k, m = out[i].split(":")
-            if int(m) != nsim or q != int(k) / int(m):
-                run.mismatch(case, dict(quantile=q), dict(quantile=out[i]))
+        try:
+            _flush_item(run, out, kind, case, i, data)
+        except (KeyboardInterrupt, SystemExit):
+            raise
+        except Exception as e:
+            run.oracle_failure(case, f"output of the implementation could not be compared with the model "
+                                     f"({type(e).__name__}: {str(e)[:200]})")
     pending.clear()
 
 
@@ -653,6 +698,20 @@ def do_public(run, drv, pending, case):
     module, view, conditional = PUBLIC[case["test"]]
     mod = mods[module]
     fore, cat = build_public(case)
+    # history on the SAME forecast / catalog objects before the checked call: other tests (their results are not looked at
+    # here), scale() calls; the checked call must behave like a first call on objects in the state they are in now
+    for h in case.get("history") or []:
+        try:
+            if h[0] == "scale":
+                fore.scale(h[1])
+            else:
+                hm = mods[PUBLIC[h[1]][0]]
+                with capped_uniform(), contextlib.redirect_stdout(io.StringIO()):
+                    getattr(hm, h[1])(fore, cat, num_simulations=h[3], seed=h[2])
+            run.count("history-step-" + h[0])
+        except Exception as e:
+            run.oracle_failure(case, f"history step {h!r} raised {type(e).__name__}")
+            return None
     Fr, Or = public_inputs(case, fore, cat)
     rates = [float(v) for v in Fr]
     masked = module != "poisson"
@@ -712,11 +771,57 @@ def do_public(run, drv, pending, case):
         for call in (rec[:1] if case.get("neartie") else rec):   # weights only (bit-exactness) + zero draws
             i = drv.ask(f"c06_run {'m' if masked else 'p'} {flist(rates)} -")
             pending.append(("weights", case, i, call))
+        if seed is not None and not case.get("neartie"):
+            default_path(run, drv, pending, case, mod, module, masked, conditional, rates, Or, fore, seed, nsim, rec, res)
     sims, ob = res.test_distribution, res.observed_statistic
     if not (any(math.isnan(float(s)) for s in sims) or math.isnan(float(ob))):
         i = drv.ask(f"c06_quantile {flist([fr_stat(s) for s in sims])} {frac(fr_stat(ob))}")
         pending.append(("quantile", case, i, (float(res.quantile), nsim)))
     return res
+
+
+def default_path(run, drv, pending, case, mod, module, masked, conditional, rates, Or, fore, seed, nsim, rec, res):
+    """no injected numbers: the simulated catalogs must be the model's placement of the numbers the legacy global generator
+    yields after numpy.random.seed(seed) — Poisson tests: [poisson(N_fore) for the L-test, then] rand(n) per simulation; binary
+    / Brier: one uniform per iteration of the rejection loop (drawing them in batches yields the same numbers). And every
+    entry of the returned distribution must be the statistic of ITS simulated catalog (a reused buffer must not alias)."""
+    g = numpy.random.RandomState(seed)
+    run.count(f"default-path-{module}")
+    if not masked:
+        for idx, call in enumerate(rec):
+            n = int(sum(Or)) if conditional else int(g.poisson(float(numpy.sum(fore.data))))
+            row = g.random_sample(n)
+            if isinstance(call[3], str):
+                continue
+            call2 = (call[0], call[1], numpy.array(row, dtype=float), call[3])
+            fail = oracle_call(rates, masked, call2, n)
+            if fail:
+                run.oracle_failure(case, f"default random path, simulation {idx}: {fail}")
+                return
+            i = drv.ask(f"c06_run p {flist(rates)} {flist(row)}")
+            pending.append(("run", case, i, call2))
+    else:
+        stream = g.random_sample(4000).tolist()
+        obstxt = ",".join(str(int(v)) for v in Or) if len(Or) else "-"
+        i = drv.ask(f"c06_bintest {flist(rates)} {obstxt} {nsim} {flist(stream)}")
+        pending.append(("chain-seeded", case, i, rec))
+        # aliasing: entry k of the distribution is the statistic of the k-th simulated catalog
+        try:
+            F = numpy.asarray(fore.spatial_counts() if PUBLIC[case["test"]][1] == "space" else fore.data, dtype=float)
+            for idx, call in enumerate(rec):
+                if isinstance(call[3], str):
+                    continue
+                if module == "binary":
+                    ref = float(mod.binary_joint_log_likelihood_ndarray(F, numpy.array(call[3], dtype=float)))
+                else:
+                    ref = float(mod._brier_score_ndarray(F, numpy.array(call[3], dtype=float)))
+                val = float(res.test_distribution[idx])
+                if not (val == ref or (math.isnan(val) and math.isnan(ref)) or abs(val - ref) <= 1e-11 * max(abs(val), abs(ref))):
+                    run.oracle_failure(case, f"default random path: entry {idx} of the simulated distribution ({val!r}) is not the "
+                                             f"statistic of the {idx}-th simulated catalog ({ref!r})")
+                    return
+        except AttributeError:
+            run.count("default-path-statistic-function-not-found")
 
 
 def do_seed(run, drv, pending, case):
@@ -813,6 +918,20 @@ def gen_public_case(rng, test=None, seeded=False):
         case["seed"] = None
         cands = boundary_draws(ref_weights(list(Fr), masked))
         case["rows"] = [hx(gen_row(rng, cands, ev)) for _ in range(nsim)]
+    if rng.random() < 0.3:
+        # earlier calls on the same objects: Poisson-family tests (they always terminate; a seeded rejection loop may need
+        # astronomically many draws on a forecast with a nearly empty cell)
+        pool = ["likelihood_test", "conditional_likelihood_test", "spatial_test", "magnitude_test"]
+        hist = []
+        for _ in range(rng.randint(1, 3)):
+            if rng.random() < 0.25:
+                hist.append(["scale", rng.choice([0.5, 2.0, 4.0])])
+            else:
+                hist.append(["test", rng.choice(pool), rng.randrange(2 ** 31), rng.randint(1, 3)])
+        if any(h[0] == "scale" for h in hist):
+            hist.append(["scale", 1])          # back to the forecast's own rates (scale factors are absolute)
+        if not (not conditional and case.get("rows") is not None):
+            case["history"] = hist
     return case
 
 
@@ -998,6 +1117,93 @@ def gen_direct_case(rng):
     return dict(kind="direct", module=module, rates=hx(rates), draws=hx(draws), style=style)
 
 
+# ----------------------------------------------------------------------------- sizes beyond 2^16
+def gen_big_case(rng, which):
+    module = rng.choice(["poisson", "binary", "brier"]) if which == "bins" else "poisson"
+    if which == "bins":
+        n = 65536 + rng.randint(1, 5000)                     # more than 65536 bins, not a multiple of 65536
+        pattern = [rng.choice([0.5, 1e-3, 2.0, 0.25, 1e-9, 0.0]) for _ in range(rng.randint(3, 7))]
+        if not any(v > 0 for v in pattern):
+            pattern[0] = 0.5
+        return dict(kind="big", which=which, module=module, n=n, pattern=hx(pattern), nev=rng.randint(1, 4), nsim=2,
+                    draw_seed=rng.randrange(2 ** 31))
+    return dict(kind="big", which=which, module=module, n=3, pattern=hx([1e-9, 1.0, 1e-9]), nev=65536 + rng.randint(1, 9000),
+                nsim=1, draw_seed=rng.randrange(2 ** 31))
+
+
+def do_big(run, drv, pending, case):
+    """more than 65536 bins / more than 65535 events in one bin (and in one catalog): exact oracle only (bisect on the
+    implementation's own float weights); the Lean ops are not asked (exact rational arithmetic on 70 000 weights is slow)"""
+    import bisect
+    mods = _mods()
+    module = case["module"]
+    mod = mods[module]
+    masked = module != "poisson"
+    pat = unhx(case["pattern"])
+    n, nev, nsim = case["n"], case["nev"], case["nsim"]
+    rates = numpy.array([pat[k % len(pat)] for k in range(n)], dtype=float)
+    g = numpy.random.RandomState(case["draw_seed"])
+    pos = numpy.flatnonzero(rates > 0)
+    obs = numpy.zeros(n)
+    if case["which"] == "bins":
+        idx = sorted(set(int(pos[q]) for q in g.randint(0, len(pos), size=nev)) | {int(pos[-1])})
+        for q in idx:
+            obs[q] = 1
+        ev = len(idx)
+    else:
+        obs[1] = nev
+        ev = nev
+    w_ref = ref_weights(rates.tolist(), masked)
+    rows = g.random_sample((nsim, ev))
+    if case["which"] == "bins":
+        # direct some draws to boundaries beyond index 65536
+        for r in range(nsim):
+            k = int(pos[-1 - r])
+            rows[r, 0] = float(w_ref[k - 1]) if k > 0 else 0.0
+    shape = (n, 1) if module == "brier" else (n,)
+    fn = dict(poisson="_poisson_likelihood_test", binary="_binary_likelihood_test", brier="_brier_score_test")[module]
+    kw = dict(num_simulations=nsim, random_numbers=rows, seed=None, verbose=False)
+    if module != "brier":
+        kw.update(use_observed_counts=True, normalize_likelihood=False)
+    run.case(dict(kind="big", which=case["which"], module=module, n=n, events=ev), ("big", case["which"], module, n, ev, case["draw_seed"]))
+    run.count(f"big-{case['which']}-{module}")
+    with capture(mod) as rec:
+        try:
+            res = getattr(mod, fn)(rates.reshape(shape), obs.reshape(shape), **kw)
+        except Exception as e:
+            run.oracle_failure(case, f"{fn} raised {type(e).__name__} on {n} bins / {ev} events")
+            return
+    if len(rec) != nsim:
+        run.oracle_failure(case, f"{len(rec)} catalogs simulated for {nsim} simulations")
+        return
+    for q, (cn, w, rn, out) in enumerate(rec):
+        if isinstance(out, str):
+            run.oracle_failure(case, f"_simulate_catalog raised {out}")
+            return
+        wl = [float(x) for x in w]
+        if len(wl) != n or len(out) != n or not all(math.isfinite(x) for x in wl) or any(wl[k] > wl[k + 1] for k in range(n - 1)):
+            run.oracle_failure(case, "weights / result do not have the forecast's shape, are not finite or decrease")
+            return
+        exp = numpy.zeros(n)
+        for r in rows[q]:
+            k = bisect.bisect_right(wl, float(r))
+            if k >= n:
+                run.oracle_failure(case, f"draw {float(r)!r} beyond the last weight")
+                return
+            exp[k] += 1
+        if cn != ev or float(numpy.sum(out)) != ev or not numpy.array_equal(numpy.asarray(out, dtype=float), exp):
+            bad = numpy.flatnonzero(numpy.asarray(out, dtype=float) != exp)[:5].tolist()
+            run.oracle_failure(case, f"simulated catalog {q} differs from the inverse-CDF placement of its numbers on {n} bins / "
+                                     f"{ev} events (first differing bins {bad}; sum {float(numpy.sum(out))!r}, prescribed {ev})")
+            return
+        if numpy.any((numpy.asarray(out) != 0) & ~(rates > 0)):
+            run.oracle_failure(case, "event in a zero-rate bin")
+            return
+    fail = quantile_oracle(res[0], res[1], res[2], nsim)
+    if fail:
+        run.oracle_failure(case, fail)
+
+
 # ----------------------------------------------------------------------------- run / replay
 def flush_all(run, drv, pending):
     flush(run, drv, pending)
@@ -1007,7 +1213,22 @@ def do_public_any(run, drv, pending, case):
     return (do_neartie if case.get("neartie") else do_public)(run, drv, pending, case)
 
 
-DISPATCH = dict(array=do_array, public=do_public_any, seed=do_seed, catseed=do_catalog_seed, direct=do_direct)
+def guarded(fn):
+    """a harness crash is a missed detection: anything unexpected while an implementation output is processed is reported
+    as a deviation with the case as replay (on the unchanged tree nothing of this kind happens)"""
+    def wrapped(run, drv, pending, case):
+        try:
+            return fn(run, drv, pending, case)
+        except (KeyboardInterrupt, SystemExit):
+            raise
+        except Exception as e:
+            run.oracle_failure(case, f"output of the implementation could not be processed ({type(e).__name__}: {str(e)[:200]})")
+            return None
+    return wrapped
+
+
+DISPATCH = dict(array=guarded(do_array), public=guarded(do_public_any), seed=guarded(do_seed),
+                catseed=guarded(do_catalog_seed), direct=guarded(do_direct), big=guarded(do_big))
 
 
 def run(run, rng, tier):
@@ -1022,22 +1243,24 @@ def run(run, rng, tier):
     flush_all(run, drv, pending)
     quick = tier == "quick"
     n_array, n_direct, n_public, n_seed, n_cat, n_d10 = (1200, 500, 700, 20, 8, 6) if quick else (40000, 16000, 24000, 200, 80, 60)
+    for which in (["bins", "count"] if quick else ["bins"] * 6 + ["count"] * 3):
+        DISPATCH["big"](run, drv, pending, gen_big_case(rng, which))
     for k in range(2 * n_d10):
         case = gen_array_case(rng, tier, module=rng.choice(["binary", "brier"]), want_d10=True if k % 2 == 0 else "b")
         if case:
-            do_array(run, drv, pending, case)
+            DISPATCH["array"](run, drv, pending, case)
     for k in range(n_array):
-        do_array(run, drv, pending, gen_array_case(rng, tier))
+        DISPATCH["array"](run, drv, pending, gen_array_case(rng, tier))
         if k % 200 == 199:
             flush_all(run, drv, pending)
     flush_all(run, drv, pending)
     for k in range(n_direct):
-        do_direct(run, drv, pending, gen_direct_case(rng))
+        DISPATCH["direct"](run, drv, pending, gen_direct_case(rng))
     flush_all(run, drv, pending)
     for k in range(n_public):
         case = gen_public_case(rng, seeded=rng.random() < 0.25)
         if case:
-            do_public(run, drv, pending, case)
+            DISPATCH["public"](run, drv, pending, case)
         if k % 200 == 199:
             flush_all(run, drv, pending)
     flush_all(run, drv, pending)
@@ -1053,7 +1276,7 @@ def run(run, rng, tier):
             if case:
                 if case.get("verbose"):
                     run.count("public-verbose-long-run")
-                do_neartie(run, drv, pending, case)
+                DISPATCH["public"](run, drv, pending, case)
         flush_all(run, drv, pending)
     # determinism for every seed incl. 0, every public test
     for test in PUBLIC:
@@ -1066,11 +1289,11 @@ def run(run, rng, tier):
                         case = None
                 case = dict(case, kind="seed", seed=seed, ambient_a=rng.randrange(2 ** 31), ambient_b=rng.randrange(2 ** 31),
                             burn=rng.randint(0, 5))
-                do_seed(run, drv, pending, case)
+                DISPATCH["seed"](run, drv, pending, case)
     for seed in [0, 1, 2 ** 32 - 1] + [rng.randrange(2 ** 32) for _ in range(1 if quick else 4)]:
         for test in ("resampled_magnitude_test", "MLL_magnitude_test"):
             for _ in range(max(1, n_cat // 4)):
-                do_catalog_seed(run, drv, pending, dict(gen_catalog_seed_case(rng, seed), test=test))
+                DISPATCH["catseed"](run, drv, pending, dict(gen_catalog_seed_case(rng, seed), test=test))
     flush_all(run, drv, pending)
     # sanity of the determinism check itself: without a seed the ambient state shows (counted, no verdict)
     sens = 0
